@@ -71,6 +71,10 @@ def run(check, prog):
     c02.yang(check, prog, canon)
     c02.qratio(check, prog)
     c02.seam(check, prog, canon)
+    # a one-sphere cluster equals the single-sphere series only while the compiled
+    # expansion can hold it (rule shared with C02)
+    from . import c02 as _c02
+    _c02.cluster_order_cap(check, prog)
 
 
 def slots(v):
